@@ -277,7 +277,9 @@ impl Run {
         let waker = self.flag.waker();
         let mut cx = Context::from_waker(&waker);
         let fut = self.fut.as_mut().unwrap();
+        selium_verif_harness::POLL_SEQ.fetch_add(1, std::sync::atomic::Ordering::SeqCst);
         let r = catch_unwind(AssertUnwindSafe(|| fut.as_mut().poll(&mut cx)));
+        selium_verif_harness::POLL_SEQ.fetch_add(1, std::sync::atomic::Ordering::SeqCst);
         let inner = self.log.take_inner();
         match r {
             Ok(Poll::Pending) => self.log.emit("poll_end", json!({"res": "pending", "inner": inner})),
@@ -847,8 +849,10 @@ fn main() {
     }
     let mut dead = 0;
     let mut executed = 0usize;
+    selium_verif_harness::start_watchdog(log.clone(), schedules.len());
     for (k, s) in schedules.iter().enumerate() {
         log.reset(k as u64 + 1, json!({"sched": s.id}));
+        selium_verif_harness::CUR_RUN.store(k as u64 + 1, std::sync::atomic::Ordering::SeqCst);
         let mut run = Run::new(log.clone(), seed.wrapping_add(k as u64));
         // every fourth schedule runs with the clock jumping ahead between its steps (see router_pubsub)
         // The router logs what it does to failing peers.  Whether anybody listens must not matter: schedules
